@@ -202,6 +202,15 @@ func (am AppModule) EndBlock(ctx sdk.Context, _ abci.RequestEndBlock) []abci.Val
 
 	keeper.ResetAggregatorContextCheckTx()
 
+	// the params cache is written from inside transactions (message server, assets precompile), and a
+	// transaction can still fail after that write: an EVM call reverted by its caller, a later message of
+	// the same transaction. The store is transactional, so the stored params are what this block decided;
+	// params that only a failed transaction knew must neither be recorded nor reach the aggregator context
+	var pending cache.ItemP
+	if cs.GetCache(&pending) {
+		cs.AddCache(cache.ItemP(am.keeper.GetParams(ctx)))
+	}
+
 	if _, _, paramsUpdated := cs.CommitCache(ctx, false, am.keeper); paramsUpdated {
 		var p cache.ItemP
 		cs.GetCache(&p)
